@@ -727,8 +727,9 @@ pub fn record(args: &Args) {
 		if want("sj_rt") {
 			let sj = gen_sj(&mut rng, 1 + i % 3);
 			let r = guarded(|| {
-				let js = Value::from_serde_json(sj.clone());
-				let back = js.clone().into_serde_json();
+				// alternately through the named conversions and through the From impls
+				let js = if i % 2 == 0 { Value::from_serde_json(sj.clone()) } else { Value::from(sj.clone()) };
+				let back = if i % 4 < 2 { js.clone().into_serde_json() } else { serde_json::Value::from(js.clone()) };
 				(project(&js), back == sj, project_sj(&back))
 			});
 			lines.push(match r {
@@ -749,8 +750,8 @@ pub fn record(args: &Args) {
 			let in_domain = sps.iter().all(|s| cert64(s).is_some());
 			let certs: Vec<J> = sps.iter().filter_map(|s| cert64(s)).collect();
 			let r = guarded(|| {
-				let sj = v.clone().into_serde_json();
-				project(&Value::from_serde_json(sj))
+				let sj = if i % 2 == 0 { v.clone().into_serde_json() } else { serde_json::Value::from(v.clone()) };
+				project(&if i % 4 < 2 { Value::from_serde_json(sj) } else { Value::from(sj) })
 			});
 			match r {
 				Ok(back) => {
